@@ -192,6 +192,8 @@ def run(prop, tier, seed, replay=None):
     if prop == "C02":
         from . import racecheck
         racecheck.reader_overlap(rep, tier, seed)
+    if prop == "C07":
+        sync_overlap(rep, tier)
     nev = sum(len(t["events"]) for t in traces)
     rep.coverage.update(mc)
     rep.coverage.update({
@@ -213,6 +215,46 @@ def run(prop, tier, seed, replay=None):
         "SHA-1 / MD5 collision resistance",
     ]
     return rep.finish()
+
+
+def _sync_overlap_work(job):
+    _quiet()
+    from . import syncrace
+    from .alpha import Interner
+    try:
+        E = Interner()
+        out = []
+        first = syncrace.run_overlap(job["write"], 0, E)
+        out.append(first)
+        n = first["gates"]
+        for i in range(1, n + 1, job["stride"]):
+            out.append(syncrace.run_overlap(job["write"], i, E))
+        return {"ok": True, "recs": out}
+    except Exception:
+        return {"ok": False, "error": traceback.format_exc()}
+
+
+def sync_overlap(rep, tier):
+    """C07: sync-collection reports overlapped by a write at every file-system step of the report."""
+    writes = [("put", "d.ics", 1), ("delete", "c.ics"), ("put", "c.ics", 2), ("delete", "a.ics")]
+    jobs = [{"write": w, "stride": 1} for w in writes]
+    with multiprocessing.get_context("fork").Pool(len(jobs)) as pool:
+        outs = pool.map(_sync_overlap_work, jobs, chunksize=1)
+    recs = []
+    for o in outs:
+        if not o["ok"]:
+            common.machinery_failure("harness exception (sync overlap):\n" + o["error"])
+        recs.extend(o["recs"])
+    res, stat = tlc.validate_traces("SyncOverlapTrace", "SyncOverlapTrace.cfg", {"recs": recs})
+    for v in res:
+        r = recs[v["i"] - 1]
+        if v["k"] == "viol":
+            rep.violation("sync-collection overlapped by %s after %d steps of the report: %s got=%s" % (
+                r["write"], r["i"], v["w"], json.dumps(r["got"])),
+                {"property": rep.prop, "verdict": v, "record": r})
+        else:
+            rep.note("sync overlap: %s (%s after %d steps)" % (v["w"], r["write"], r["i"]))
+    rep.coverage["sync_overlap_runs"] = len(recs)
 
 
 def uid_cache_conformance(rep, traces):
